@@ -114,6 +114,17 @@ pub fn ext_variants() -> Vec<(String, Vec<u64>, bool, Vec<u8>, bool)> {
     add("san otherName INTEGER value", OID_SAN, false, seq(&[ctx_cons(0, &cat(&[oid(&[1, 2, 3]), ctx_cons(0, &uint(&[5]))]))]), true);
     add("san otherName without explicit tag", OID_SAN, false, seq(&[ctx_cons(0, &cat(&[oid(&[1, 2, 3]), string(T_UTF8, b"x")]))]), true);
     add("san otherName 128-bit arc", OID_SAN, false, seq(&[ctx_cons(0, &cat(&[wide_oid(), ctx_cons(0, &string(T_UTF8, b"x"))]))]), true);
+    for (l, tag) in [("IA5String", T_IA5), ("PrintableString", T_PRINTABLE), ("BMPString", T_BMP), ("TeletexString", T_TELETEX), ("UniversalString", T_UNIVERSALSTR)] {
+        let v: Vec<u8> = match tag {
+            T_BMP => vec![0, b'_', 0, b'x'],
+            T_UNIVERSALSTR => vec![0, 0, 0, b'x'],
+            _ => b"_xmpp-server.example".to_vec(),
+        };
+        // an otherName whose value is a string of another type than UTF8String (RFC 4985 SRVName is an IA5String): refused, or
+        // carried with the same tag
+        add(&format!("san otherName value of type {}", l), OID_SAN, false, seq(&[ctx_cons(0, &cat(&[oid(&[1, 3, 6, 1, 5, 5, 7, 8, 7]), ctx_cons(0, &string(tag, &v))]))]), false);
+    }
+    add("san otherName value OCTET STRING", OID_SAN, false, seq(&[ctx_cons(0, &cat(&[oid(&[1, 2, 3]), ctx_cons(0, &octet(b"x"))]))]), false);
     for (l, arc) in big_arcs() {
         add(&format!("san otherName type 1.3.6.1.4.1.311.20.2.({})", l), OID_SAN, false, seq(&[ctx_cons(0, &cat(&[big_arc_oid(43, &[6, 1, 4, 1, 311, 20, 2], arc), ctx_cons(0, &string(T_UTF8, b"x"))]))]), false);
     }
@@ -148,6 +159,8 @@ pub fn name_variants() -> Vec<(String, Vec<u8>)> {
         ("name with an empty RDN set".into(), seq(&[tlv(0x31, &[])])),
         ("name with multi-valued RDN".into(), seq(&[set_of(&[atv(&[2, 5, 4, 3], T_UTF8, b"a"), atv(&[2, 5, 4, 10], T_UTF8, b"b")])])),
         ("name with repeated type".into(), seq(&[set_of(&[atv(&[2, 5, 4, 11], T_UTF8, b"a")]), set_of(&[atv(&[2, 5, 4, 11], T_UTF8, b"b")])])),
+        ("name with one registered type three times between O and CN".into(), seq(&[set_of(&[atv(&[2, 5, 4, 10], T_UTF8, b"o")]), set_of(&[atv(&[2, 5, 4, 11], T_UTF8, b"a")]), set_of(&[atv(&[2, 5, 4, 11], T_UTF8, b"b")]), set_of(&[atv(&[2, 5, 4, 11], T_UTF8, b"c")]), set_of(&[atv(&[2, 5, 4, 3], T_UTF8, b"cn")])])),
+        ("name with one registered type four times, other types between".into(), seq(&[set_of(&[atv(&[2, 5, 4, 3], T_UTF8, b"1")]), set_of(&[atv(&[2, 5, 4, 10], T_UTF8, b"o")]), set_of(&[atv(&[2, 5, 4, 3], T_UTF8, b"2")]), set_of(&[atv(&[2, 5, 4, 3], T_UTF8, b"3")]), set_of(&[atv(&[2, 5, 4, 6], T_PRINTABLE, b"DE")]), set_of(&[atv(&[2, 5, 4, 3], T_UTF8, b"4")])])),
         ("name with the same attribute (type and value) twice, adjacent".into(), seq(&[set_of(&[atv(&[2, 5, 4, 10], T_UTF8, b"o")]), set_of(&[atv(&[2, 5, 4, 11], T_UTF8, b"Operations")]), set_of(&[atv(&[2, 5, 4, 11], T_UTF8, b"Operations")]), set_of(&[atv(&[2, 5, 4, 3], T_UTF8, b"c")])])),
         ("name with the same attribute (type and value) twice, apart".into(), seq(&[set_of(&[atv(&[2, 5, 4, 11], T_UTF8, b"u")]), set_of(&[atv(&[2, 5, 4, 3], T_UTF8, b"c")]), set_of(&[atv(&[2, 5, 4, 11], T_UTF8, b"u")])])),
         ("name with the same type and text in two string types".into(), seq(&[set_of(&[atv(&[2, 5, 4, 11], T_UTF8, b"u")]), set_of(&[atv(&[2, 5, 4, 11], T_PRINTABLE, b"u")])])),
